@@ -50,10 +50,10 @@ theorem dataCheck_any (must : Bool) (sz : Option Nat) (b0 : BI) (h : dataCheck t
 
 theorem data_recomputes (st : Static) (nodes : List AstNode) (d0 d : Defs) (g : Good st nodes d0 d)
     (pre : List AstNode) (sz : Option Nat) (es : List Expr) (refs : List Nat) (post : List AstNode) (k : Nat)
-    (hsplit : nodes = pre ++ .data sz es refs :: post)
+    (hsplit : nodes = pre ++ .data sz es refs :: post) (hk : k < es.length)
     (hm : (d.datas.getD (refs.getD k 0) default).resolved = true) (ctx : RCtx) (hf : ctx.first = false) :
     resolveData st d.unfreeze ctx (refs.getD k 0) sz (es.getD k default) = .ok (d.unfreeze, true, []) := by
-  obtain ⟨v, c, b0, w1, w2, w3, w4⟩ := g.hd _ hm pre sz es refs post k hsplit rfl
+  obtain ⟨v, c, b0, w1, w2, w3, w4⟩ := g.hd _ hm pre sz es refs post k hsplit hk rfl
   unfold resolveData
   simp only [unfreeze_data, Bool.false_eq_true, if_false, w1, dataEnc_any _ v b0 w2, dataCheck_any _ sz b0 w3]
   unfold dataStore
@@ -69,7 +69,7 @@ theorem data_recomputes (st : Static) (nodes : List AstNode) (d0 d : Defs) (g : 
 /-- under the invariant every marked item recomputes to its stored value -/
 theorem good_recomputesAll (st : Static) (nodes : List AstNode) (d0 d : Defs) (f : FrontOK st nodes d0) (g : Good st nodes d0 d) :
     RecomputesAll st d [] nodes := by
-  intro pre n post k hsplit hm ctx hf hc
+  intro pre n post k hsplit hk hm ctx hf hc
   cases n with
   | instr src r =>
     cases r with
@@ -81,7 +81,7 @@ theorem good_recomputesAll (st : Static) (nodes : List AstNode) (d0 d : Defs) (f
   | data sz es refs =>
     simp only [marked] at hm
     simp only [dispatch]
-    exact data_recomputes st nodes d0 d g pre sz es refs post k hsplit hm ctx hf
+    exact data_recomputes st nodes d0 d g pre sz es refs post k hsplit (by simpa [nodeElems] using hk) hm ctx hf
   | _ => simp [marked] at hm
 
 /-- **the final state recomputes to itself, marks cleared** -/
